@@ -493,8 +493,14 @@ func (d decoder) name(s *cryptobyte.String) (string, error) {
 
 func (d decoder) nameLabels(s *cryptobyte.String) ([]string, error) {
 	var labels []string
+	var pointers, length int
 	for {
 		for !s.Empty() && (*s)[0]&0xc0 == 0xc0 { // pointer
+			// A name is at most 255 octets, so it cannot legitimately
+			// use more pointers than that.
+			if pointers++; pointers > 255 {
+				return nil, ErrDecodeError
+			}
 			current := uintptr(unsafe.Pointer(&(*s)[0]))
 			var offset uint16
 			if !s.ReadUint16(&offset) {
@@ -513,6 +519,11 @@ func (d decoder) nameLabels(s *cryptobyte.String) ([]string, error) {
 		}
 		if len(name) == 0 {
 			break
+		}
+		// RFC 1035 Section 3.1: names are limited to 255 octets. This also
+		// bounds the walk when pointers lead back to an earlier label.
+		if length += len(name) + 1; length > 255 {
+			return nil, ErrDecodeError
 		}
 		labels = append(labels, string(name))
 	}
